@@ -62,7 +62,9 @@ func Walk(v Visitor, node ast.Node) {
 		}
 
 	case *ast.Break:
-		Walk(v, n.Label)
+		if n.Label != nil {
+			Walk(v, n.Label)
+		}
 
 	case *ast.Call:
 		for _, arg := range n.Args {
@@ -99,7 +101,9 @@ func Walk(v Visitor, node ast.Node) {
 		}
 
 	case *ast.Continue:
-		Walk(v, n.Label)
+		if n.Label != nil {
+			Walk(v, n.Label)
+		}
 
 	case *ast.Defer:
 		Walk(v, n.Call)
@@ -259,7 +263,9 @@ func Walk(v Visitor, node ast.Node) {
 
 	case *ast.TypeSwitch:
 		Walk(v, n.Init)
-		Walk(v, n.Assignment)
+		if n.Assignment != nil {
+			Walk(v, n.Assignment)
+		}
 		for _, c := range n.Cases {
 			Walk(v, c)
 		}
@@ -275,7 +281,9 @@ func Walk(v Visitor, node ast.Node) {
 	case *ast.Using:
 		Walk(v, n.Statement)
 		Walk(v, n.Type)
-		Walk(v, n.Body)
+		if n.Body != nil {
+			Walk(v, n.Body)
+		}
 
 	case *ast.Var:
 		for _, ident := range n.Lhs {
